@@ -1731,6 +1731,8 @@ def main():
     rs2coq_model2.main(os.path.dirname(dst))
     import rs2coq_locks          # part 19: the lock discipline (skeletons of every function that reaches the role-manager lock) -> Gen/LocksGen.v
     rs2coq_locks.main(os.path.dirname(dst))
+    import rs2coq_misc           # part 22: null_adapter.rs, FunctionMap default / add_function / get_functions, register_function, Assertion accessors, frontend.rs -> Gen/MiscGen.v
+    rs2coq_misc.main(os.path.dirname(dst))
     import rs2coq_rm             # part 11: DefaultRoleManager + bounded BFS -> Gen/RoleManagerGen.v
     rs2coq_rm.main(os.path.dirname(dst))
 
